@@ -168,25 +168,44 @@ def cname(func: Func, node, role: str = "") -> str:
 def where(func: Func, node) -> str:
     ln = getattr(node, "lineno", None)
     rel = func.module.path
-    return f"{rel}:{ln}" if ln else rel
+    return f"{rel}:{int(ln)}" if ln else rel
 
 
-def sentinel_lookup(test: ast.AST):
-    """Recognise ``(x := D.get(K, s := object())) is s`` / ``is not s``.
+def sentinel_lookup(test: ast.AST, prev: ast.stmt | None = None):
+    """Recognise ``(x := D.get(K, s := object())) is s`` / ``is not s`` - also with the sentinel being a name bound elsewhere, and
+    with the lookup written as the statement ``x = D.get(K, s)`` right before ``if x is s:`` (pass that statement as ``prev``).
     Returns (var, container_chain, key_node, 'absent'|'present') or None."""
     if not (isinstance(test, ast.Compare) and len(test.ops) == 1 and isinstance(test.ops[0], (ast.Is, ast.IsNot))):
         return None
     left, right = test.left, test.comparators[0]
-    if not (isinstance(left, ast.NamedExpr) and isinstance(left.value, ast.Call)):
+    var = None
+    if isinstance(left, ast.NamedExpr) and isinstance(left.value, ast.Call):
+        call, var = left.value, left.target.id
+    elif isinstance(left, ast.Name) and isinstance(prev, ast.Assign) and len(prev.targets) == 1 and isinstance(prev.targets[0], ast.Name) \
+            and prev.targets[0].id == left.id and isinstance(prev.value, ast.Call):
+        call, var = prev.value, left.id
+    else:
         return None
-    call = left.value
-    if not (isinstance(call.func, ast.Attribute) and call.func.attr == "get" and len(call.args) == 2):
+    if not (isinstance(call.func, ast.Attribute) and call.func.attr == "get" and len(call.args) == 2 and not call.keywords):
         return None
     sent = call.args[1]
-    if not (isinstance(sent, ast.NamedExpr) and isinstance(right, ast.Name) and sent.target.id == right.id):
+    sent_name = sent.target.id if isinstance(sent, ast.NamedExpr) else sent.id if isinstance(sent, ast.Name) else None
+    if sent_name is None or not (isinstance(right, ast.Name) and right.id == sent_name) or sent_name in ("None", "True", "False"):
         return None
-    return (left.target.id, A.chain(call.func.value), call.args[0],
+    return (var, A.chain(call.func.value), call.args[0],
             "absent" if isinstance(test.ops[0], ast.Is) else "present")
+
+
+def prev_siblings(func_node) -> dict:
+    """statement -> the statement right before it in its block"""
+    out = {}
+    for n in ast.walk(func_node):
+        for fld in ("body", "orelse", "finalbody"):
+            bl = getattr(n, fld, None)
+            if isinstance(bl, list) and bl and isinstance(bl[0], ast.stmt):
+                for a, b in zip(bl, bl[1:]):
+                    out[b] = a
+    return out
 
 
 def find_stmt(func: Func, pred, what: str):
